@@ -1001,6 +1001,19 @@ func main() {
 	w := hlib.NewWriter(f.Out)
 	defer w.Close()
 	for _, in := range ins {
-		w.Emit(run(in))
+		w.Emit(runGuarded(in))
 	}
+}
+
+// a panic of the code under test (a nil pointer dereferenced by the start-up decision ...) is observed as a refusal to start:
+// the process would die every time it is started on this state
+func runGuarded(in In) (o Out) {
+	defer func() {
+		if r := recover(); r != nil {
+			o = Out{In: in, Before: []Row{}, After: []Row{}, HistB: []HistKey{}, HistA: []HistKey{}, Outcome: "refused",
+				ErrKind: fmt.Sprintf("panic: %v", r)}
+			o.Next.Err = "other"
+		}
+	}()
+	return run(in)
 }
